@@ -176,14 +176,14 @@ UNITS['msgl3'] = unit_msgl3
 def unit_bs_msmrows(tier, seed):
     import unit_standin
     return unit_standin.run('msm_rows', ['msmperm'], {'C10', 'C01'},
-                            'msm_sat_frag!/msm_sig_frag! encode+decode (sort_unstable_by with a closure, iter_mut zip): row order independent of input order',
+                            'whole MSM message through builder and decoder under random permutations of the caller\'s satellite and cell lists: same frame as the sorted input, same sets back (end-to-end stand-in next to the fragment-level contracts of unit l2)',
                             tier, seed, 6000, 100000)
 
 
 def unit_bs_msgs(tier, seed):
     import unit_standin
     return unit_standin.run('messages', ['msgs'], {'C01', 'C02', 'C09', 'C16', 'C10', 'C17'},
-                            'whole-message decode/encode fixed point, panic-freedom and truncation for fragments outside the Verus units (MSM rows, bias lists, 1029 text, grids)',
+                            'whole-message decode/encode fixed point, panic-freedom and truncation on hostile payloads of every message number (end-to-end stand-in; the only cover for 1029 text, 16-point grids and the message-level composition of MSM and bias-list fragments)',
                             tier, seed, 40000, 1500000)
 
 
@@ -202,7 +202,7 @@ def unit_bs_text(tier, seed):
 def unit_bs_bias(tier, seed):
     import unit_standin
     return unit_standin.run('bias_lists', ['bias'], {'C16', 'C01'},
-                            'df_msg1059/1065/1230_biases encode (iterator filter/count closures): same multiset of entries, grouped by ascending satellite, or an error',
+                            '1059/1065/1230 through builder and decoder: same multiset of entries, grouped by ascending satellite, or an error (end-to-end stand-in next to the encoder/decoder contracts and inverse lemmas of unit l2)',
                             tier, seed, 3000, 60000)
 
 
